@@ -12,6 +12,7 @@ Stage 3 (property on the implementation): the same outputs are compared exactly 
   factories (floating point) are checked through the exactly computed residual
   |A y - b| against a bound derived from dimension and conditioning (see solver_tol).
 """
+import copy
 import itertools
 import time
 from fractions import Fraction
@@ -412,6 +413,80 @@ def signature(c, slug):
 
 
 # ---------------------------------------------------------------------------
+# histories on ONE object: several applications with all results kept, compositions, results fed back
+# ---------------------------------------------------------------------------
+
+def all_operands(c):
+    fam = c['fam']
+    if fam in ('tprod', 'kronop', 'applykron', 'blockdiag'):
+        return [o for o in c['ops'] if o is not None]
+    if fam == 'modek':
+        return [c['B']]
+    if fam == 'block':
+        return [o for row in c['grid'] for o in row if o is not None]
+    if fam == 'subspace':
+        return c['B'] + c['P']
+    if fam == 'diag':
+        return [c]
+    return []
+
+
+def make_history(rng, c):
+    """The same operator (float64 operands: the compositions square the magnitudes) with two further
+    arguments of the same length in any form and dtype."""
+    h = copy.deepcopy(c)
+    for o in all_operands(h):
+        o['dtype'] = 'f8'
+    xs = []
+    for _ in range(2):
+        if c['fam'] in ('tprod', 'modek'):
+            x = {'shape': list(c['x']['shape']), 'data': [rng.randint(-4, 4) for _ in c['x']['data']]}
+        elif c['fam'] == 'rowsubset':
+            x = rx(rng, c['x']['shape'][0], form='vec')
+        else:
+            x = rx(rng, c['x']['shape'][0])
+        xs.append(set_xdtype(rng, x))
+    h['hist'] = {'xs': xs}
+    return h
+
+
+def check_history(h, res):
+    """None or (slug, text)."""
+    v = h.get('variant', '')
+    if res['status'] != 'Ok':
+        return ('raises-' + res['status'].replace('Other:', ''),
+                'history on one %s%s object raised %s (%s)' % (h['fam'], ('.' + v) if v else '', res['status'], res.get('msg', '')))
+    xs = [h['x']] + h['hist']['xs']
+    D = dense_definition(h)
+    X1 = ix(h['x'])
+    for st in res['steps']:
+        name = st['name']
+        if name.startswith('y'):
+            want = oracle(dict(h, x=xs[int(name[1:]) - 1]))
+        elif name.startswith(('AT', '(AT')):
+            want = D.T @ (D @ X1)
+        else:
+            want = D @ (D @ X1)
+        if st['status'] != 'Ok':
+            return ('value', 'step %s: non-integral/invalid result %s' % (name, st.get('repr', '')[:5]))
+        if st['shape'] != list(want.shape):
+            return ('shape', 'step %s has shape %s, the dense definition gives %s' % (name, st['shape'], list(want.shape)))
+        got = np.array(st['data'], dtype=np.int64).reshape(want.shape)
+        if not np.array_equal(got, want):
+            w = np.argwhere(got != want)[0]
+            return ('value', 'step %s of a history on one object: entry %s is %d, the dense definition gives %d' % (
+                name, tuple(int(t) for t in w), got[tuple(w)], want[tuple(w)]))
+    if res['changed']:
+        return ('result-changed-later', 'results kept from earlier applications of the same object changed afterwards: %s' % (
+            ', '.join(res['changed'][:5])))
+    if res['aliased']:
+        return ('results-share-memory', 'results of different applications share memory: %s' % ('; '.join(res['aliased'][:5])))
+    if res.get('mutated'):
+        return ('operand-modified', 'operands altered bitwise during the history: %s' % ', '.join(res['mutated'][:4]))
+    return None
+
+
+# ---------------------------------------------------------------------------
 # Coq case files
 # ---------------------------------------------------------------------------
 
@@ -555,7 +630,8 @@ def gen_solver_cases(ctx):
         legal = [{}, own] + ([{'symmetric': True}] if cls == 'spd' else [])
         builds = [own] if rng.random() < 0.3 else [rng.choice(legal) for _ in range(rng.randint(2, 3))]
         cases.append({'fam': 'solver', 'cls': '%s:%s:x%d' % (cls, B['kind'], len(builds)), 'mats': [B], 'B': 0,
-                      'builds': builds, 'x': set_xdtype(rng, rx(rng, n)), 'how': rhow(rng)})
+                      'builds': builds, 'x': set_xdtype(rng, rx(rng, n)), 'how': rhow(rng),
+                      'xs': [set_xdtype(rng, rx(rng, n)) for _ in range(2)]})
     for i in range(54 * mult):
         nm = rng.randint(1, 2)
         mats = [dd_matrix(rng, rng.randint(1, 4), rng.random() < 0.4, skind()) for _ in range(nm)]
@@ -567,7 +643,8 @@ def gen_solver_cases(ctx):
         shared = len(set(idx)) < len(idx)
         cases.append({'fam': 'kronsolver', 'cls': '%s:%s' % ('shared' if shared else 'distinct',
                       '+'.join(sorted({mats[k]['kind'] for k in idx}))), 'mats': mats, 'idx': idx,
-                      'x': set_xdtype(rng, rx(rng, N)), 'how': rhow(rng)})
+                      'x': set_xdtype(rng, rx(rng, N)), 'how': rhow(rng),
+                      'xs': [set_xdtype(rng, rx(rng, N)) for _ in range(2)]})
     for i in range(42 * mult):
         dim = 1 + i % 3
         npairs = rng.randint(1, dim)
@@ -596,7 +673,8 @@ def gen_solver_cases(ctx):
         shared = len({tuple(p) for p in KM}) < dim or any(k == m for k, m in KM)
         cases.append({'fam': 'fastdiag', 'cls': 'dim%d:%s:%s' % (dim, 'shared' if shared else 'distinct',
                       '+'.join(sorted({mats[k]['kind'] for k, _ in KM}))), 'mats': mats, 'KM': KM,
-                      'x': set_xdtype(rng, rx(rng, N)), 'how': rhow(rng)})
+                      'x': set_xdtype(rng, rx(rng, N)), 'how': rhow(rng),
+                      'xs': [set_xdtype(rng, rx(rng, N)) for _ in range(2)]})
     return cases
 
 
@@ -651,10 +729,19 @@ def check_solver(c, res):
                 '%s raised %s (%s) for a valid input' % (c['fam'], res['status'], res.get('msg', '')), None)
     A = solver_matrix(c)
     N = len(A)
-    xs = c['x']['shape']
-    nc = xcols(c['x'])
     worst = 0.0
     for o in res['outs']:
+        # the right-hand side of this stage: the case's x, a further argument, or an earlier result fed back
+        rhs = o.get('rhs', 0)
+        if isinstance(rhs, list):
+            src = res['outs'][rhs[1]]
+            xs = src['shape']
+            bvals = [Fraction(float.fromhex(h)) for h in src['hex']]
+        else:
+            xspec = c['x'] if rhs == 0 else c['xs'][rhs - 1]
+            xs = xspec['shape']
+            bvals = [Fraction(v) for v in xspec['data']]
+        nc = 1 if len(xs) == 1 else xs[1]
         if o.get('dtype') != 'float64':
             return ('result-dtype', '%s (%s): result has dtype %s for a float64 matrix and a %s right-hand side' % (
                 c['fam'], o['stage'], o.get('dtype'), c['x']['dtype']), None)
@@ -664,7 +751,7 @@ def check_solver(c, res):
         ys = [Fraction(float.fromhex(h)) for h in o['hex']]
         for col in range(nc):
             y = [ys[i * nc + col] for i in range(N)]
-            b = [Fraction(c['x']['data'][i * nc + col]) for i in range(N)]
+            b = [bvals[i * nc + col] for i in range(N)]
             resid = max(abs(sum(A[i][j] * y[j] for j in range(N)) - b[i]) for i in range(N))
             ynorm = float(max(abs(v) for v in y))
             bnorm = float(max(abs(v) for v in b))
@@ -676,6 +763,12 @@ def check_solver(c, res):
                         'the solver was built from' % (c['fam'], o['stage'], float(resid), tol, col), worst)
     if res.get('mutated'):
         return ('operand-modified', '%s altered its operands: %s' % (c['fam'], '; '.join(res['mutated'][:4])), worst)
+    if res.get('changed'):
+        return ('result-changed-later', '%s: results kept from earlier applications changed afterwards: %s' % (
+            c['fam'], '; '.join(res['changed'][:4])), worst)
+    if res.get('aliased'):
+        return ('results-share-memory', '%s: results of different applications share memory: %s' % (
+            c['fam'], '; '.join(res['aliased'][:4])), worst)
     return (None, None, worst)
 
 
@@ -719,7 +812,23 @@ def run(ctx):
             nfail += 1
             ctx.report(signature(c, bad[0]), bad[1], {'case': c, 'impl': r,
                        'how': 'harness/impl/c16_driver.py run_case(case): builds the operands from integer data and applies the operator'})
-    ctx.cov['traces_validated_against_impl'] = len(cases)
+    # ---- histories on one object (every operator case once more, with float64 operands)
+    hcases = [make_history(ctx.rng, c) for c in cases]
+    t0 = time.time()
+    hres = run_impl(ctx, hcases)
+    log('[C16] %d histories on one object: %.1fs' % (len(hcases), time.time() - t0))
+    nsteps = 0
+    for h, r in zip(hcases, hres):
+        ctx.count(('hist', h['fam'], h.get('variant'), repr(h['hist']), repr(h['x'])), nontrivial=True)
+        nsteps += len(r.get('steps', []))
+        bad = check_history(h, r)
+        if bad:
+            nfail += 1
+            ctx.report(signature(h, 'history-' + bad[0]), bad[1], {'case': h, 'impl': r,
+                       'how': 'harness/impl/c16_driver.py run_history(case): one object, applications y1..y3 kept, compositions, y1 fed back'})
+    ctx.cov['history_cases'] = len(hcases)
+    ctx.cov['history_steps_compared'] = nsteps
+    ctx.cov['traces_validated_against_impl'] = len(cases) + len(hcases)
     ctx.cov['property_failures_on_impl'] = nfail
 
     # ---- stage 2: correspondence model <-> implementation, exact, inside Coq
@@ -797,7 +906,9 @@ def run(ctx):
                        '(C/F order), variants N/T/H/TT/TH, dot/@/*; every operand is compared bitwise with its snapshot after the operation; '
                        'solver factories: dense C/F/transposed-view and sparse inputs, the same array object handed over several times '
                        '(make_solver x2-3, make_kronecker_solver(A,A), fastdiag with repeated (K,M) pairs and K is M), applied twice, '
-                       'residual against the harness-side snapshot; non-trivial = every case; distinct by operands and argument')
+                       'residual against the harness-side snapshot; histories on ONE object for every operator class and solver operator: three applications with '
+                       'all results kept and re-compared bitwise at the end, compositions A(Ax), A*A, AT(Ax), AT*A, kept results fed back as arguments, '
+                       'np.shares_memory between results and between results and operands; non-trivial = every case; distinct by operands and argument')
     ctx.cov['input_distribution'] = dist
     ctx.cov['exhaustive'] = False
     for k in (0, len(cases) // 2, len(cases) - 1):
@@ -809,7 +920,9 @@ def replay(ctx, rec):
     """./check C16 --replay file: re-run the recorded case on the current implementation."""
     c = rec['replay']['case']
     r = run_impl(ctx, [c])[0]
-    if c['fam'] in ('solver', 'kronsolver', 'fastdiag'):
+    if 'hist' in c:
+        bad = check_history(c, r)
+    elif c['fam'] in ('solver', 'kronsolver', 'fastdiag'):
         slug, text, _ = check_solver(c, r)
         bad = (slug, text) if slug else None
     else:
